@@ -164,6 +164,9 @@ def run(ctx, prog):
                 okg = not any(x in r for x in sinks)
             ctx.inst('C15.R2', 'rpc ' + h, 'item refused without effect: %s' % name, okg, 'failing edges: %s' % fail[:1])
 
+    # the engine-level funnel refuses every rejection class of the index before the log (same table as C03.R1): an item refused after the
+    # append is answered with an error, but its compensating Delete erases the previously acknowledged version on replay
+    C03.rejection_classes(ctx, prog, 'C15.R2', eff)
     # ------------------------------------------------------------------ R3
     ctx.rule('C15.R3', 'search validation: validate_search_request refuses empty, over-long and non-finite queries, k = 0, k > MAX_KNN_K and '
                        'ef_search > 10000; both search executors call it and reach the engine only past its success; nothing else in the binary '
